@@ -34,7 +34,7 @@ int g_rejected;           /* a handler returned false                           
 int g_reject_idx;         /* ... at this index                                     */
 int g_k;                  /* arbitrary fixed index (stands for "every k")          */
 int g_called_k;           /* handler k has been executed                           */
-int g_calls_k;            /* ... this many times                                   */
+unsigned long long g_calls_k; /* ... this many times                                   */
 Handler *g_elem_k;        /* element k of the list                                 */
 QString g_fm; QVariantHash g_attrs;   /* message state left by the previous handler */
 QSharedPointer_Handler g_cell;
